@@ -241,4 +241,33 @@ def pathSymlink (pm : Nat) (host : HostOp → HostRes) (fds : FdTable)
       | .ok => .val ⟨Gen.WasiPath.errnoSuccess, [op]⟩
       | .err e => .val ⟨wasiErrno e, [op]⟩
 
+/-! ### guest linear memory (`memory->data`, an object of exactly `m.length` bytes; w2c2's
+    load/store functions and wasi.c's `memcpy`/`memset` into it perform no bounds checks) -/
+
+abbrev Mem := List UInt8
+
+/-- C `U32` arithmetic -/
+def u32 (x : Nat) : Nat := x % 4294967296
+
+/-- `memcpy(memory->data + addr, bs, |bs|)` -/
+def storeBytes (m : Mem) (addr : Nat) (bs : Bytes) : Out Mem :=
+  if addr + bs.length ≤ m.length then .val (m.take addr ++ bs ++ m.drop (addr + bs.length))
+  else .ub .outOfBounds
+
+/-- little-endian bytes of the low `w` bytes of `v` -/
+def leBytes : Nat → Nat → Bytes
+  | 0, _ => []
+  | w + 1, v => UInt8.ofNat (v % 256) :: leBytes w (v / 256)
+
+def leVal : Bytes → Nat
+  | [] => 0
+  | b :: r => b.toNat + 256 * leVal r
+
+def i32Store (m : Mem) (addr v : Nat) : Out Mem := storeBytes m addr (leBytes 4 v)
+def i64Store (m : Mem) (addr v : Nat) : Out Mem := storeBytes m addr (leBytes 8 v)
+def i32Store8 (m : Mem) (addr v : Nat) : Out Mem := storeBytes m addr (leBytes 1 v)
+
+def loadBytes (m : Mem) (addr n : Nat) : Out Bytes :=
+  if addr + n ≤ m.length then .val ((m.drop addr).take n) else .ub .outOfBounds
+
 end W2c2Verif.WasiPath
